@@ -160,10 +160,16 @@ Section K.
   Definition lists_sound (s : rep) : Prop :=
     forall pc, 1 <= pc <= 12 -> NoDup (nthd (r_lists s) pc []) /\
       forall sq, In sq (nthd (r_lists s) pc []) -> sq < 64 /\ nthd (r_board s) sq 0 = pc.
+  (* bitboards: bit i of entry k of a family says that square i holds a piece whose kind (colour) is k *)
+  Definition bbf (b : list N) (proj : N -> N) (k i : N) : bool := (i <? 64) && negb (nthd b i 0 =? 0) && (proj (nthd b i 0) =? k).
+  Definition fam_sound (F : list N) (n : nat) (b : list N) (proj : N -> N) : Prop :=
+    length F = n /\ forall k i, (N.to_nat k < n)%nat -> N.testbit (nthd F k 0) i = bbf b proj k i.
+  Definition bb_sound (s : rep) : Prop :=
+    fam_sound (r_kind_bb s) 7 (r_board s) pc_kind /\ fam_sound (r_color_bb s) 2 (r_board s) pc_color.
   Definition piece_inv (s : rep) : Prop :=
     length (r_board s) = 64%nat /\ length (r_lists s) = 13%nat /\ (forall sq, sq < 64 -> nthd (r_board s) sq 0 < 13) /\
     cover s /\ k_piece (r_key s) = pk (r_lists s) /\ k_pawn (r_key s) = wkp (r_lists s) /\
-    k_piece (r_key s) = bkp (r_board s) /\ k_pawn (r_key s) = bkw (r_board s) /\ lists_sound s.
+    k_piece (r_key s) = bkp (r_board s) /\ k_pawn (r_key s) = bkw (r_board s) /\ lists_sound s /\ bb_sound s.
 
   (* list surgery keeps duplicates out and tells where the entries come from *)
   Lemma replace_first_spec l x y : NoDup l -> ~ In y l ->
@@ -206,6 +212,78 @@ Section K.
     - apply N.eqb_neq in E. apply nthd_updN_other. congruence.
   Qed.
 
+  Lemma testbit_bit sq i : N.testbit (bit sq) i = (i =? sq).
+  Proof. unfold bit. rewrite N.shiftl_1_l, N.pow2_bits_eqb. apply N.eqb_sym. Qed.
+  Lemma nthd_upd_fam (F : list N) n j k x : length F = n -> (N.to_nat j < n)%nat -> nthd (updN F j x) k 0 = if k =? j then x else nthd F k 0.
+  Proof.
+    intros H Hj. destruct (k =? j) eqn:E.
+    - apply N.eqb_eq in E. subst k. apply nthd_updN_same. lia.
+    - apply N.eqb_neq in E. apply nthd_updN_other. congruence.
+  Qed.
+  Lemma pc_kind_lt7 pc : (N.to_nat (pc_kind pc) < 7)%nat.
+  Proof. unfold pc_kind. destruct (pc =? 0); [cbn; lia|]. pose proof (N.mod_lt (pc - 1) 6). lia. Qed.
+  Lemma pc_color_lt2 pc : (N.to_nat (pc_color pc) < 2)%nat.
+  Proof. unfold pc_color. destruct (pc <? 7); cbn; lia. Qed.
+
+  Ltac bfin := rewrite ?N.eqb_refl; cbn; rewrite ?N.eqb_refl, ?andb_false_r, ?andb_true_r, ?orb_true_r, ?orb_false_r, ?xorb_false_r, ?xorb_true_r; cbn; try reflexivity;
+    repeat match goal with |- context [(?x <? 64)] => destruct (x <? 64) end; cbn; try reflexivity;
+    repeat match goal with |- context [(?x =? ?y)] => destruct (x =? y) end; reflexivity.
+  Section Fam.
+    Variable proj : N -> N.
+    Variable n : nat.
+    Hypothesis proj_lt : forall pc, (N.to_nat (proj pc) < n)%nat.
+
+    Lemma fam_add F b pc sq : fam_sound F n b proj -> length b = 64%nat -> sq < 64 -> nthd b sq 0 = 0 -> pc <> 0 ->
+      fam_sound (updN F (proj pc) (N.lor (nthd F (proj pc) 0) (bit sq))) n (updN b sq pc) proj.
+    Proof.
+      intros [HF Hs] Hb Hsq He Hpc. split; [rewrite updN_length; exact HF|]. intros k i Hk.
+      rewrite (nthd_upd_fam F n) by (first [exact HF|apply proj_lt]). unfold bbf. rewrite nthd_upd_board by assumption.
+      destruct (k =? proj pc) eqn:E.
+      - apply N.eqb_eq in E. subst k. rewrite N.lor_spec, testbit_bit, (Hs _ i Hk). unfold bbf.
+        destruct (i =? sq) eqn:E2.
+        + apply N.eqb_eq in E2. subst i. rewrite (proj2 (N.ltb_lt sq 64) Hsq), (proj2 (N.eqb_neq pc 0) Hpc), N.eqb_refl. bfin.
+        + bfin.
+      - rewrite (Hs _ i Hk). unfold bbf. destruct (i =? sq) eqn:E2; [|reflexivity].
+        apply N.eqb_eq in E2. subst i. rewrite He. rewrite (N.eqb_sym (proj pc) k), E. bfin.
+    Qed.
+
+    Lemma fam_rem F b sq : fam_sound F n b proj -> length b = 64%nat -> sq < 64 -> nthd b sq 0 <> 0 ->
+      fam_sound (updN F (proj (nthd b sq 0)) (N.lxor (nthd F (proj (nthd b sq 0)) 0) (bit sq))) n (updN b sq 0) proj.
+    Proof.
+      intros [HF Hs] Hb Hsq Hne. set (pc := nthd b sq 0) in *. split; [rewrite updN_length; exact HF|]. intros k i Hk.
+      rewrite (nthd_upd_fam F n) by (first [exact HF|apply proj_lt]). unfold bbf. rewrite nthd_upd_board by assumption.
+      destruct (k =? proj pc) eqn:E.
+      - apply N.eqb_eq in E. subst k. rewrite N.lxor_spec, testbit_bit, (Hs _ i Hk). unfold bbf.
+        destruct (i =? sq) eqn:E2.
+        + apply N.eqb_eq in E2. subst i. fold pc. rewrite (proj2 (N.ltb_lt sq 64) Hsq), (proj2 (N.eqb_neq pc 0) Hne), N.eqb_refl. bfin.
+        + bfin.
+      - rewrite (Hs _ i Hk). unfold bbf. destruct (i =? sq) eqn:E2; [|reflexivity].
+        apply N.eqb_eq in E2. subst i. fold pc. rewrite (N.eqb_sym (proj pc) k), E. bfin.
+    Qed.
+
+    Lemma fam_mov F b from to : fam_sound F n b proj -> length b = 64%nat -> from < 64 -> to < 64 -> from <> to ->
+      nthd b from 0 <> 0 -> nthd b to 0 = 0 ->
+      fam_sound (updN F (proj (nthd b from 0)) (N.lxor (nthd F (proj (nthd b from 0)) 0) (N.lor (bit from) (bit to)))) n
+                (updN (updN b from 0) to (nthd b from 0)) proj.
+    Proof.
+      intros [HF Hs] Hb Hf Ht Hft Hne He. set (pc := nthd b from 0) in *. split; [rewrite updN_length; exact HF|]. intros k i Hk.
+      assert (Hb1 : length (updN b from 0) = 64%nat) by (rewrite updN_length; exact Hb).
+      rewrite (nthd_upd_fam F n) by (first [exact HF|apply proj_lt]). unfold bbf. rewrite !nthd_upd_board by assumption.
+      destruct (k =? proj pc) eqn:E.
+      - apply N.eqb_eq in E. subst k. rewrite N.lxor_spec, N.lor_spec, !testbit_bit, (Hs _ i Hk). unfold bbf.
+        destruct (i =? to) eqn:E2.
+        + apply N.eqb_eq in E2. subst i. rewrite He. rewrite (proj2 (N.ltb_lt to 64) Ht), (proj2 (N.eqb_neq pc 0) Hne), N.eqb_refl.
+          bfin.
+        + destruct (i =? from) eqn:E3.
+          * apply N.eqb_eq in E3. subst i. fold pc. rewrite (proj2 (N.ltb_lt from 64) Hf), (proj2 (N.eqb_neq pc 0) Hne), N.eqb_refl. bfin.
+          * bfin.
+      - rewrite (Hs _ i Hk). unfold bbf. destruct (i =? to) eqn:E2.
+        + apply N.eqb_eq in E2. subst i. rewrite He. rewrite (N.eqb_sym (proj pc) k), E. bfin.
+        + destruct (i =? from) eqn:E3; [|reflexivity].
+          apply N.eqb_eq in E3. subst i. fold pc. rewrite (N.eqb_sym (proj pc) k), E. bfin.
+    Qed.
+  End Fam.
+
   Lemma tgl_keys k pc sq :
     k_piece (toggle_piece zt k pc sq) = (if pc_kind pc =? PAWN then k_piece k else N.lxor (k_piece k) (z_piece zt pc sq)) /\
     k_pawn (toggle_piece zt k pc sq) = (if pc_kind pc =? PAWN then N.lxor (k_pawn k) (z_piece zt pc sq) else k_pawn k).
@@ -213,11 +291,11 @@ Section K.
 
   Lemma add_piece_inv s pc sq : piece_inv s -> 1 <= pc <= 12 -> sq < 64 -> nthd (r_board s) sq 0 = 0 -> piece_inv (add_piece zt s pc sq).
   Proof.
-    intros [Hb [Hl [Hc [Hcov [Hk [Hw [Hbk [Hbw Hls]]]]]]]] Hpc Hsq Hempty.
+    intros [Hb [Hl [Hc [Hcov [Hk [Hw [Hbk [Hbw [Hls Hbb]]]]]]]]] Hpc Hsq Hempty.
     assert (Hb' : length (updN (r_board s) sq pc) = 64%nat) by (rewrite updN_length; exact Hb).
     assert (Hl' : forall x, length (updN (r_lists s) pc x) = 13%nat) by (intro x; rewrite updN_length; exact Hl).
     unfold piece_inv, add_piece, with_board, cover. cbn [r_board r_lists r_key].
-    split; [exact Hb'|]. split; [apply Hl'|]. split; [|split; [|split; [|split; [|split; [|split]]]]].
+    split; [exact Hb'|]. split; [apply Hl'|]. split; [|split; [|split; [|split; [|split; [|split; [|split]]]]]].
     - intros i Hi. rewrite nthd_upd_board by assumption. destruct (i =? sq); [lia|apply Hc; exact Hi].
     - intros i Hi. rewrite nthd_upd_board by assumption. destruct (i =? sq) eqn:E.
       + apply N.eqb_eq in E. subst i. intros _. rewrite nthd_upd_lists by (first [assumption|lia]). rewrite N.eqb_refl.
@@ -246,17 +324,19 @@ Section K.
           -- split; [exact Hsq|]. rewrite nthd_upd_board by assumption. rewrite N.eqb_refl. reflexivity.
       + apply N.eqb_neq in E. split; [exact Hnd|]. intros x Hx. destruct (Hel x Hx) as [X1 X2]. split; [exact X1|].
         rewrite nthd_upd_board by assumption. destruct (x =? sq) eqn:E2; [apply N.eqb_eq in E2; subst x; lia|exact X2].
+    - destruct Hbb as [Hkb Hcb]. unfold bb_sound. cbn [r_board r_kind_bb r_color_bb].
+      split; [apply (fam_add pc_kind 7 pc_kind_lt7)|apply (fam_add pc_color 2 pc_color_lt2)]; try assumption; lia.
   Qed.
 
   Lemma remove_piece_inv s sq : piece_inv s -> sq < 64 -> nthd (r_board s) sq 0 <> 0 -> piece_inv (remove_piece zt s sq).
   Proof.
-    intros [Hb [Hl [Hc [Hcov [Hk [Hw [Hbk [Hbw Hls]]]]]]]] Hsq Hne.
+    intros [Hb [Hl [Hc [Hcov [Hk [Hw [Hbk [Hbw [Hls Hbb]]]]]]]]] Hsq Hne.
     set (pc := nthd (r_board s) sq 0) in *.
     assert (Hpc : 1 <= pc <= 12) by (pose proof (Hc sq Hsq); fold pc in H; lia).
     pose proof (Hcov sq Hsq Hne) as Hin. fold pc in Hin.
     assert (Hb' : length (updN (r_board s) sq 0) = 64%nat) by (rewrite updN_length; exact Hb).
     unfold piece_inv, remove_piece, with_board, cover. cbn [r_board r_lists r_key]. fold pc. change NO_PIECE with 0.
-    split; [exact Hb'|]. split; [rewrite updN_length; exact Hl|]. split; [|split; [|split; [|split; [|split; [|split]]]]].
+    split; [exact Hb'|]. split; [rewrite updN_length; exact Hl|]. split; [|split; [|split; [|split; [|split; [|split; [|split]]]]]].
     - intros i Hi. rewrite nthd_upd_board by assumption. destruct (i =? sq); [lia|apply Hc; exact Hi].
     - intros i Hi. rewrite nthd_upd_board by assumption. destruct (i =? sq) eqn:E; [intro X; contradiction X; reflexivity|].
       apply N.eqb_neq in E. intro Hn. rewrite nthd_upd_lists by (first [assumption|lia]).
@@ -280,18 +360,20 @@ Section K.
         rewrite nthd_upd_board by assumption. rewrite (proj2 (N.eqb_neq x sq) X2). exact Y2.
       + apply N.eqb_neq in E. split; [exact Hnd|]. intros x Hx. destruct (Hel x Hx) as [X1 X2]. split; [exact X1|].
         rewrite nthd_upd_board by assumption. destruct (x =? sq) eqn:E2; [apply N.eqb_eq in E2; subst x; fold pc in X2; congruence|exact X2].
+    - destruct Hbb as [Hkb Hcb]. unfold bb_sound. cbn [r_board r_kind_bb r_color_bb]. fold pc.
+      split; [apply (fam_rem pc_kind 7 pc_kind_lt7)|apply (fam_rem pc_color 2 pc_color_lt2)]; assumption.
   Qed.
 
   Lemma move_piece_inv s from to : piece_inv s -> from < 64 -> to < 64 -> from <> to -> nthd (r_board s) from 0 <> 0 ->
     nthd (r_board s) to 0 = 0 -> piece_inv (move_piece zt s from to).
   Proof.
-    intros [Hb [Hl [Hc [Hcov [Hk [Hw [Hbk [Hbw Hls]]]]]]]] Hf Ht Hft Hne Hempty.
+    intros [Hb [Hl [Hc [Hcov [Hk [Hw [Hbk [Hbw [Hls Hbb]]]]]]]]] Hf Ht Hft Hne Hempty.
     set (pc := nthd (r_board s) from 0) in *.
     assert (Hpc : 1 <= pc <= 12) by (pose proof (Hc from Hf); fold pc in H; lia).
     pose proof (Hcov from Hf Hne) as Hin. fold pc in Hin.
     assert (Hb1 : length (updN (r_board s) from 0) = 64%nat) by (rewrite updN_length; exact Hb).
     unfold piece_inv, move_piece, with_board, cover. cbn [r_board r_lists r_key]. fold pc. change NO_PIECE with 0.
-    split; [rewrite !updN_length; exact Hb|]. split; [rewrite updN_length; exact Hl|]. split; [|split; [|split; [|split; [|split; [|split]]]]].
+    split; [rewrite !updN_length; exact Hb|]. split; [rewrite updN_length; exact Hl|]. split; [|split; [|split; [|split; [|split; [|split; [|split]]]]]].
     - intros i Hi. rewrite !nthd_upd_board by assumption. destruct (i =? to); [lia|]. destruct (i =? from); [lia|apply Hc; exact Hi].
     - intros i Hi. rewrite !nthd_upd_board by assumption. destruct (i =? to) eqn:E.
       + apply N.eqb_eq in E. subst i. intros _. rewrite nthd_upd_lists by (first [assumption|lia]). rewrite N.eqb_refl.
@@ -330,13 +412,15 @@ Section K.
         rewrite !nthd_upd_board by assumption.
         destruct (x =? to) eqn:E2; [apply N.eqb_eq in E2; subst x; lia|].
         destruct (x =? from) eqn:E3; [apply N.eqb_eq in E3; subst x; fold pc in X2; congruence|exact X2].
+    - destruct Hbb as [Hkb Hcb]. unfold bb_sound. cbn [r_board r_kind_bb r_color_bb]. fold pc.
+      split; [apply (fam_mov pc_kind 7 pc_kind_lt7)|apply (fam_mov pc_color 2 pc_color_lt2)]; assumption.
   Qed.
 
   (* set_meta leaves board and lists alone: the invariant survives when the new key has the old piece components *)
   Lemma set_meta_inv s a b c d e k h : piece_inv s -> k_piece k = k_piece (r_key s) -> k_pawn k = k_pawn (r_key s) ->
     piece_inv (set_meta s a b c d e k h).
   Proof.
-    intros [Hb [Hl [Hc [Hcov [Hk [Hw [Hbk [Hbw Hls]]]]]]]] E1 E2. unfold piece_inv, cover, set_meta. cbn [r_board r_lists r_key].
-    split; [exact Hb|]. split; [exact Hl|]. split; [exact Hc|]. split; [exact Hcov|]. split; [congruence|]. split; [congruence|]. split; [congruence|]. split; [congruence|]. exact Hls.
+    intros [Hb [Hl [Hc [Hcov [Hk [Hw [Hbk [Hbw [Hls Hbb]]]]]]]]] E1 E2. unfold piece_inv, cover, set_meta. cbn [r_board r_lists r_key].
+    split; [exact Hb|]. split; [exact Hl|]. split; [exact Hc|]. split; [exact Hcov|]. split; [congruence|]. split; [congruence|]. split; [congruence|]. split; [congruence|]. split; [exact Hls|exact Hbb].
   Qed.
 End K.
